@@ -501,6 +501,48 @@ CallsCases(u) ==
               \cup { RecCase(N, ci) : N \in 0..9, ci \in {1, 2, 3} } )
 
 (***************************************************************************)
+(* Family "cfg" (C04, C12): control-flow shapes a block-structured compiler *)
+(* has to get right - a back edge to instruction 0, dead code after ja and  *)
+(* exit, a block reached only by fall-through, a jump over a wide load, an  *)
+(* exit in the middle, nested diamonds - and unused fields that must be     *)
+(* ignored: a dst field on call / ldabs / ldind, an offset on exit.         *)
+(***************************************************************************)
+JltI(d, imm, off) == I(165, d, 0, off, imm)       \* 0xa5 jlt rd, imm
+JeqI(d, imm, off) == I(21, d, 0, off, imm)        \* 0x15 jeq rd, imm
+CfgProgs == <<
+  \* 1: loop through instruction 0:  add r1,1 ; jlt r1,3,-2 ; mov r0,r1 ; exit         => 3
+  << Add64I(1, 1), JltI(1, 3, -2), Mov64R(0, 1), ExitI >>,
+  \* 2: dead code after ja and after exit
+  << Mov64I(0, 1), JaI(2), Mov64I(0, 2), ExitI, Add64I(0, 10), ExitI, Mov64I(0, 3), ExitI >>,
+  \* 3: block reached only by fall-through from a not-taken branch
+  << Mov64I(0, 5), JeqI(0, 6, 1), Add64I(0, 1), Add64I(0, 1), ExitI >>,
+  \* 4: jump over a wide load
+  << Mov64I(0, 4), JaI(2) >> \o LddwSlots(0, V64[16]) \o << ExitI >>,
+  \* 5: exit in the middle, second half reached by a branch
+  << Mov64I(0, 1), JeqI(0, 1, 1), ExitI, Add64I(0, 41), ExitI >>,
+  \* 6: nested diamonds
+  << Mov64I(0, 0), Mov64I(2, 7), JeqI(2, 7, 2), Add64I(0, 1), JaI(3), JeqI(2, 8, 1), Add64I(0, 2), Add64I(0, 4), Add64I(0, 8), ExitI >>,
+  \* 7: exit with a non-zero offset field and registers in unused fields
+  << Mov64I(0, 9), I(EXIT, 3, 4, -5, 77) >>,
+  \* 8: ja with registers / immediate in unused fields
+  << Mov64I(0, 8), I(JA, 5, 6, 1, 123), ExitI, ExitI >>,
+  \* 9: two back edges (counted loop inside a loop)
+  << Mov64I(0, 0), Mov64I(2, 0), Mov64I(3, 0), Add64I(0, 1), Add64I(3, 1), JltI(3, 3, -3), Add64I(2, 1), JltI(2, 2, -6), ExitI >>
+>>
+CfgCases(u) ==
+  { [BaseCase EXCEPT !.id = <<"cfg", k, 0, 0, 0, 0, 0>>, !.fam = "cfg", !.vm = "nodata", !.prog = Flat(CfgProgs[k])] : k \in 1..Len(CfgProgs) }
+  \cup
+  \* packet loads and helper calls with a non-zero dst field: the result still goes to r0
+  { [WithPkt([BaseCase EXCEPT !.vm = "raw"], 16) EXCEPT !.id = <<"cfgld", w, d, ind, 0, 0, 0>>, !.fam = "cfg",
+       !.prog = Flat(<< Mov64I(0, 0), Mov64I(d, 99), Mov64I(4, 2),
+                        IF ind = 0 THEN I(32 + SizeCode(w), d, 0, 0, 3) ELSE I(64 + SizeCode(w), d, 4, 0, 1), ExitI >>)] :
+       w \in Widths, d \in {3, 9}, ind \in {0, 1} }
+  \cup
+  { [BaseCase EXCEPT !.id = <<"cfgcall", d, 0, 0, 0, 0, 0>>, !.fam = "cfg", !.vm = "nodata", !.helpers = {6},
+       !.prog = Flat(<< Mov64I(0, 0), Mov64I(d, 99), Mov64I(1, 1), Mov64I(2, 2), Mov64I(3, 3), Mov64I(4, 4), Mov64I(5, 5),
+                        I(CALL, d, 0, 7, 6), ExitI >>)] : d \in {3, 7, 9} }
+
+(***************************************************************************)
 (* Family "helpers" (C08): helper calls with boundary ids and arguments,   *)
 (* at call depth 0..3, one to three calls per program, with exact, larger  *)
 (* and incomplete sets of registered helpers.                              *)
